@@ -835,7 +835,7 @@ def Engine.handleData (e : Engine) (data : Bytes) : Engine × Res :=
   else if e.state == .pendingConnack && e.connectUnsent then
     ({ e with state := .halted }, .err "ProtocolError")
   else
-    let cfg : DecodeCfg := { version := e.cfg.version, maxSize := e.cfg.connect.maximumPacketSize.getD maxVli }
+    let cfg : DecodeCfg := { version := e.cfg.version, maxSize := e.cfg.connect.maximumPacketSize.getD maxPacket }
     let r := decodeBytes cfg e.dec data
     let e1 := { e with dec := r.dec }
     match r.err with
